@@ -84,3 +84,35 @@ Proof.
     transitivity (node_name s p); [symmetry; exact (WF_fresh s (par name) p W Hy) | exact (WF_fresh s d p W Hd)].
   - intros k1 k2 r H1 H2. apply LL in H1, H2; auto. rewrite <- (WF_fresh s k1 r W H1). now apply WF_fresh.
 Qed.
+
+(* ---------- spellings: a call depends on its path arguments only through normalizePath ---------- *)
+Definition same_names (o o' : op) : Prop :=
+  match o, o' with
+  | Create p, Create p' | Open p, Open p' | Remove p, Remove p' | RemoveAll p, RemoveAll p' | Stat p, Stat p' =>
+      normalize_path p = normalize_path p'
+  | Mkdir p m, Mkdir p' m' | MkdirAll p m, MkdirAll p' m' | Chmod p m, Chmod p' m' | Chtimes p m, Chtimes p' m' =>
+      normalize_path p = normalize_path p' /\ m = m'
+  | OpenFile p f m, OpenFile p' f' m' | Chown p f m, Chown p' f' m' =>
+      normalize_path p = normalize_path p' /\ f = f' /\ m = m'
+  | Rename p q, Rename p' q' => normalize_path p = normalize_path p' /\ normalize_path q = normalize_path q'
+  | _, _ => o = o'
+  end.
+
+Theorem same_names_same_step s o o' : same_names o o' -> m_step s o = m_step s o'.
+Proof.
+  intros H. unfold m_step.
+  assert (E : m_step_raw s o = m_step_raw s o'); [|now rewrite E].
+  destruct o, o'; cbn [same_names] in H; try discriminate H; try (inversion H; reflexivity); cbn [m_step_raw].
+  - unfold m_create. now rewrite H.
+  - destruct H as [H ->]. unfold m_mkdir. now rewrite H.
+  - destruct H as [H ->]. unfold m_mkdirall, m_mkdir. now rewrite H.
+  - unfold m_open. now rewrite H.
+  - destruct H as (H & -> & ->). unfold m_openfile. now rewrite H.
+  - unfold m_remove. now rewrite H.
+  - unfold m_removeall. now rewrite H.
+  - destruct H as [H1 H2]. unfold m_rename. now rewrite H1, H2.
+  - unfold m_stat. now rewrite H.
+  - destruct H as [H ->]. unfold m_chmod. now rewrite H.
+  - destruct H as (H & -> & ->). unfold m_chown. now rewrite H.
+  - destruct H as [H ->]. unfold m_chtimes. now rewrite H.
+Qed.
